@@ -62,6 +62,18 @@ class FieldType(abc.ABC):
     @classmethod
     def read(cls, h5_group, memo) -> "FieldType":
         """Read a field from a HDF5 data source"""
+        same_as = h5_group.attrs.get("same_as")
+        if same_as is not None:
+            # The array of this field is the array of the field same_as, where it is stored (once)
+            if same_as not in memo:
+                # That field has not been read yet. same_as is the dotted name of a field from the top of the file
+                from midgard.data import fieldtypes
+
+                other_group = h5_group.file[same_as.replace(".", "/")]
+                other_type = _h5utils.decode_h5attr(other_group.parent.attrs["fields"])[same_as.rpartition(".")[-1]]
+                memo[same_as] = fieldtypes.function(other_type)._read(other_group, memo).data
+            memo[h5_group.attrs["fieldname"]] = memo[same_as]
+
         field = cls._read(h5_group, memo)
         field._unit = _h5utils.decode_h5attr(h5_group.attrs["unit"])
         if not any(field._unit):
@@ -86,6 +98,12 @@ class FieldType(abc.ABC):
         h5_group.attrs["fieldname"] = f"{parent_name}.{self.name}" if parent_name else self.name
         h5_group.attrs["__class__"] = f"{self.data.__class__.__module__}.{self.data.__class__.__name__}"
         h5_group.attrs["multiplier"] = self.multiplier
+        same_as = memo.get(id(self.data))
+        if same_as is not None and same_as != h5_group.attrs["fieldname"]:
+            # The array of this field is also the array of another field that is written: it is stored there, once, so
+            # that the two fields (and whatever refers to the array) are one object again when the file is read
+            h5_group.attrs["same_as"] = same_as
+            return
         self._write(h5_group, memo)
         if id(self.data) not in memo:
             memo[id(self.data)] = h5_group.attrs["fieldname"]
